@@ -179,3 +179,156 @@ Definition chk_class (x : ccase) : Z :=
   if model_ok then 0 else 2.
 
 Definition chk_static (l : list bool) : Z := if forallb (fun b => b) l then 0 else 1.
+
+(* ====================================================================================================
+   Strengthening round: histories over SEVERAL containers that share live objects (Spec/C18World.v).
+   A case: observed containers, alphabet, object creations, steps (operation, accepted?, one observation per
+   observed container), and the exported package of one observed container.
+   Same result code as above. *)
+Require Import Hdl21.Spec.C18World Hdl21.Model.C18World.
+
+Inductive wistep := WIS (o : wop) (acc : bool) (obsl : list (option obs)).
+Definition wcase := (list cid * list name * list wop * list wistep * option (nat * option export))%type.
+(* export: None = not requested; Some (k, None) = exporting observed container k failed; Some (k, Some e) = its package *)
+
+(* observation of container ci against the specification world: the namespace denotes the abstract map, every
+   object sits in the view of the kind it was SORTED by, and the flags the implementation reports about the live
+   object (class / visibility, parent is this container, name is the key) are those of the specification's heap *)
+Definition wobs_ok (ci : cid) (a : astate) (h : heap) (ob : obs) : bool :=
+  let c := fst ci in
+  forallb (fun e => let '(n, g, ga) := e in
+     (g =? id_of (a_map a n)) &&
+     (is_private n || (if 0 <=? g then ga =? g else ga <? 0))) (o_gets ob)
+  &&
+  forallb (fun e => let '(n, i, cls, par, nm) := e in
+     existsb (fun e' => let '(m, g, _) := e' in String.eqb m n && (g =? i)) (o_gets ob) &&
+     match a_map a n with
+     | Some v =>
+         (i =? v_id v) &&
+         match h i with
+         | Some o => (cls =? class_of_kind (o_kind o)) &&
+                     Bool.eqb par (opt_z_eqb (parent_of c o) (snd ci)) &&
+                     Bool.eqb nm (opt_name_eqb (o_name o) n)
+         | None => false
+         end &&
+         match view_of c (v_kind v) with
+         | Some k => zlookup n (nth (view_index k) (o_views ob) []) =? i
+         | None => false
+         end
+     | None => false
+     end) (o_ns ob)
+  &&
+  forallb (fun k =>
+     forallb (fun e => let '(n, i) := e in
+        match ns_find n (o_ns ob), a_map a n with
+        | Some (i', _), Some v => (i =? i') && (i =? v_id v) && view_opt_eqb (view_of c (v_kind v)) k
+        | _, _ => false
+        end) (nth (view_index k) (o_views ob) [])) all_views
+  && (List.length (o_views ob) =? 6)%nat.
+
+(* an elaborated container is frozen: same keys and objects in namespace, views and get() as before *)
+Definition obs_ids_eqb (a b : obs) : bool :=
+  list_eqb pair_eqb (map (fun e => let '(n, i, _, _, _) := e in (n, i)) (o_ns a))
+                    (map (fun e => let '(n, i, _, _, _) := e in (n, i)) (o_ns b))
+  && list_eqb (list_eqb pair_eqb) (o_views a) (o_views b)
+  && list_eqb pair_eqb (map (fun e => let '(n, g, _) := e in (n, g)) (o_gets a))
+                       (map (fun e => let '(n, g, _) := e in (n, g)) (o_gets b)).
+
+Definition elab_of (o : wop) (ci : cid) : bool := match o with WElab cj => cid_eqb cj ci | _ => false end.
+
+Fixpoint wcheck_spec (o : wop) (a a' : aworld) (cids : list cid) (obsl prev : list (option obs)) : bool :=
+  match cids, obsl, prev with
+  | [], [], [] => true
+  | ci :: cs, Some ob :: os, p :: ps =>
+      (if elab_of o ci then true
+       else if a_elab (w_st a ci) then match p with Some pb => obs_ids_eqb pb ob | None => false end
+       else wobs_ok ci (w_st a' ci) (w_heap a') ob)
+      && wcheck_spec o a a' cs os ps
+  | _, _, _ => false
+  end.
+
+Fixpoint walk_wspec (cids : list cid) (a : aworld) (prev : list (option obs)) (steps : list wistep) (idx : Z) : Z * aworld :=
+  match steps with
+  | [] => (0, a)
+  | WIS o acc obsl :: t =>
+      let r := wspec_step a o in
+      let a' := match r with Some x => x | None => a end in
+      match obsl with
+      | [] =>   (* not observed (exhaustive streams: every proper prefix is a case of its own): acceptance only *)
+          if Bool.eqb acc (is_some r) then walk_wspec cids a' prev t (idx + 1) else (1 + 10 * (idx + 1), a)
+      | _ =>
+          if Bool.eqb acc (is_some r) && wcheck_spec o a a' cids obsl prev
+          then walk_wspec cids a' obsl t (idx + 1) else (1 + 10 * (idx + 1), a)
+      end
+  end.
+
+Fixpoint wcheck_model (o : wop) (w w' : cworld) (cids : list cid) (obsl : list (option obs)) : bool :=
+  match cids, obsl with
+  | [], [] => true
+  | ci :: cs, Some ob :: os =>
+      (elab_of o ci || st_elab (w_st w ci) || model_matches (w_st w' ci) ob) && wcheck_model o w w' cs os
+  | _, _ => false
+  end.
+
+(* Orphanage (elaboration of a Module; repaired code, fix C18-5): every attribute reports the Module as its parent and
+   carries the key it is held by as its name *)
+Definition orphan_free (w : cworld) (ci : cid) : bool :=
+  forallb (fun e => match w_heap w (v_id (snd e)) with
+                    | Some o => opt_z_eqb (parent_of (fst ci) o) (snd ci) && opt_name_eqb (o_name o) (fst e)
+                    | None => false
+                    end) (st_ns (w_st w ci)).
+
+Fixpoint walk_wmodel (cids : list cid) (w : cworld) (steps : list wistep) (idx : Z) : Z :=
+  match steps with
+  | [] => 0
+  | WIS o acc obsl :: t =>
+      let r := wmstep w o in
+      let w' := match r with Some x => x | None => w end in
+      let orphan_ok := match o with
+                       | WElab (CModule, i) => negb acc || orphan_free w (CModule, i)
+                       | _ => true
+                       end in
+      if Bool.eqb acc (is_some r) && orphan_ok && (match obsl with [] => true | _ => wcheck_model o w w' cids obsl end)
+      then walk_wmodel cids w' t (idx + 1) else 2 + 10 * (idx + 1)
+  end.
+
+(* name and parent of every entry over the alphabet are those of the live object (the exporter reads live names; which
+   view lists a signal is the container's business, so a stale visibility does not matter here) *)
+Definition np_synced (ci : cid) (a : aworld) (names : list name) : bool :=
+  forallb (fun n => match a_map (w_st a ci) n with
+                    | Some v => match w_heap a (v_id v) with
+                                | Some o => opt_z_eqb (parent_of (fst ci) o) (snd ci) && opt_name_eqb (o_name o) n
+                                | None => false
+                                end
+                    | None => true
+                    end) names.
+
+(* ae: the world the container's elaboration saw (the last world if the export itself elaborates it), a: the last world.
+   An export that went through must come from a Module without orphans or renamed attributes (Orphanage, fix C18-5);
+   it is compared with the namespace when the names still are in place at the end. *)
+Definition wexport_ok (ci : cid) (ae a : aworld) (names : list name) (e : export) : bool :=
+  (is_bundle (fst ci) || np_synced ci ae names) &&
+  (if np_synced ci ae names && np_synced ci a names then export_ok (fst ci) (w_st a ci) names e else true).
+
+(* the world the exported package of container ci speaks about: the one its (first accepted) elaboration saw, else the last *)
+Fixpoint world_at_export (ci : cid) (a : aworld) (steps : list wistep) : aworld :=
+  match steps with
+  | [] => a
+  | WIS o acc _ :: t => if acc && elab_of o ci then a else world_at_export ci (wspec_apply a o) t
+  end.
+
+Definition chk_world (x : wcase) : Z :=
+  let '(cids, names, news, steps, ex) := x in
+  let a0 := wfold astp aw_init news in
+  let w0 := wmfold cw_init news in
+  let '(r, a) := walk_wspec cids a0 (map (fun _ => None) cids) steps 0 in
+  if negb (r =? 0) then r else
+  let n := Z.of_nat (List.length steps) in
+  let ex_ok := match ex with
+               | Some (k, Some e) => match nth_error cids k with
+                                     | Some ci => wexport_ok ci (world_at_export ci a0 steps) a names e
+                                     | None => false
+                                     end
+               | _ => true
+               end in
+  if ex_ok then walk_wmodel cids w0 steps 0 else 1 + 10 * (n + 1).
